@@ -1480,3 +1480,192 @@ Proof.
   intros Hp ((Hwf & Hlen) & _) Hbig. destruct (piece_span D tag f Hp) as (Ho & Hs & _).
   apply asm_add_overflows; assumption.
 Qed.
+
+(* ================================================================================
+   10. composition, ingress side: one poll on frame octets IS one event step
+   ================================================================================ *)
+
+(* what process_sixlowpan makes of the octets behind the MAC header: the fragment header, the
+   fragment payload and (for a FRAG1) the decompressor sixlowpan_to_ipv6 on that payload with the
+   announced datagram size -- or, for any other frame, the result it returns at once *)
+Definition lpl_ev_of (ctx : list (list Z)) (a : lpl_arrival) : lpl_ev :=
+  let t := ar_time a in
+  match sixlowpan_dispatch (ar_payload a) with
+  | Ok d =>
+      if d =? 0 then
+        match sixfrag_new_checked (ar_payload a), sixfrag_parse (ar_payload a), sixfrag_payload (ar_payload a) with
+        | Ok _, Ok h, Ok pl =>
+            EvFrag t (lpl_ll_bytes (ar_lls a)) (lpl_ll_bytes (ar_lld a))
+              (mkRxFrag h pl (fun buflen =>
+                 lp_sixlowpan_to_ipv6 ctx (ar_lls a) (ar_lld a) pl (Some (lpf_hdr_size h)) buflen))
+        | _, _, _ => EvOther t None
+        end
+      else
+        match lp_sixlowpan_to_ipv6 ctx (ar_lls a) (ar_lld a) (ar_payload a) None lp_MAX_DECOMPRESSED_LEN with
+        | Ok x => EvOther t (Some x)
+        | _ => EvOther t None
+        end
+  | _ => EvOther t None
+  end.
+
+(* Rust type invariants of a received frame: octets, at most 65527 of them (an 802.15.4 frame has
+   127), link-layer addresses of 2 or 8 octets *)
+Definition arrival_wf (a : lpl_arrival) : Prop :=
+  bytes_ok (ar_payload a) = true /\ blen (ar_payload a) < 65528 /\
+  iphc_ll_wf (ar_lls a) = true /\ iphc_ll_wf (ar_lld a) = true.
+
+Lemma wb_set_slice_noerr l lo hi v e : wb_set_slice l lo hi v <> Err e.
+Proof. unfold wb_set_slice. destruct (_ && _); discriminate. Qed.
+
+Lemma wb_sub_noerr l lo hi e : wb_sub l lo hi <> Err e.
+Proof. unfold wb_sub. destruct (_ && _); discriminate. Qed.
+
+(* process_sixlowpan_fragment has no error return of its own: every failure is "drop" (None) *)
+Lemma lpf_process_fragment_noerr now timeout src dst f ss e :
+  lpf_process_fragment now timeout src dst f ss <> Err e.
+Proof.
+  unfold lpf_process_fragment. destruct (_ <? _); [discriminate|].
+  destruct (lpf_get _ _ ss) as [(i, ss1)|]; [|discriminate].
+  assert (Hfin : forall p,
+    (if lpf_pa_is_complete p then
+       match pa_total p with
+       | Some total => do d <- wb_sub (pa_buf p) 0 total;
+                       Ok (lpf_update ss1 i (lpf_slot_reset (mkSlot (sl_key (nth i ss1 lpf_slot_new)) p (sl_expires (nth i ss1 lpf_slot_new)))), Some d)
+       | None => Panic end
+     else Ok (lpf_update ss1 i (mkSlot (sl_key (nth i ss1 lpf_slot_new)) p (sl_expires (nth i ss1 lpf_slot_new))), None)) <> Err e).
+  { intros p. destruct (lpf_pa_is_complete p); [|discriminate]. destruct (pa_total p); [|discriminate].
+    pose proof (wb_sub_noerr (pa_buf p) 0 z) as Hs. destruct (wb_sub (pa_buf p) 0 z); cbn [obind];
+      [discriminate | exfalso; exact (Hs _ eq_refl) | discriminate]. }
+  destruct (rf_hdr f) as [sz tg|sz tg off].
+  - destruct (lpf_pa_set_total_size _ _) as [p|]; [|cbn; discriminate].
+    destruct (lpf_pa_add_first p (rf_first_dec f)) as [p'|e'|]; cbn [obind]; [apply Hfin | discriminate | discriminate].
+  - unfold lpf_pa_add.
+    match goal with |- context [wb_set_slice ?l ?lo ?hi ?v] =>
+      pose proof (wb_set_slice_noerr l lo hi v) as Hs; destruct (wb_set_slice l lo hi v) as [b'|e'|] end;
+      cbn [obind]; [apply Hfin | exfalso; exact (Hs _ eq_refl) | discriminate].
+Qed.
+
+Lemma sixfrag_payload_inv b pl : sixfrag_payload b = Ok pl -> exists lo, wb_from b lo = Ok pl.
+Proof.
+  unfold sixfrag_payload. intros H. apply obind_ok in H. destruct H as (d & _ & H).
+  destruct (d =? sixfrag_FIRST); [eauto|]. destruct (d =? sixfrag_NEXT); [eauto | discriminate H].
+Qed.
+
+Lemma sixfrag_parse_next_off b s t off : bytes_ok b = true -> sixfrag_parse b = Ok (SfNext s t off) -> 0 <= off < 256.
+Proof.
+  intros Hb H. unfold sixfrag_parse in H. obind_inv H.
+  destruct (v2 =? sixfrag_FIRST); [discriminate H|]. destruct (v2 =? sixfrag_NEXT); [|discriminate H].
+  obind_inv H. injection H as _ _ <-. unfold sixfrag_datagram_offset in E3. obind_inv E3.
+  destruct (v4 =? sixfrag_FIRST); [injection E3 as <-; lia|]. destruct (v4 =? sixfrag_NEXT); [|discriminate E3].
+  exact (wb_get_u8_byte b _ v3 Hb E3).
+Qed.
+
+(* GLUE: Interface::poll_ingress_single on the octets of one received frame is one step of the
+   event machine on what process_sixlowpan parses out of them; every such event is tame *)
+Theorem lpl_poll_is_event_step ctx timeout a ss : lp_ctx_wf ctx -> arrival_wf a ->
+  lpl_poll ctx timeout a ss = ev_step timeout (lpl_ev_of ctx a) ss /\
+  ev_tame (lpl_ev_of ctx a) /\ ev_time (lpl_ev_of ctx a) = ar_time a.
+Proof.
+  intros Hctx (Hb & Hl & Hls & Hld). unfold lpl_poll, lp_process_sixlowpan, lpl_ev_of. cbv zeta.
+  pose proof (sixlowpan_dispatch_total (ar_payload a)) as Hd.
+  destruct (sixlowpan_dispatch (ar_payload a)) as [d|e|]; [|cbn; auto|contradiction Hd; reflexivity].
+  destruct (d =? 0).
+  - pose proof (sixfrag_new_checked_total (ar_payload a)) as Hn.
+    destruct (sixfrag_new_checked (ar_payload a)) as [[]|e|] eqn:En; [|cbn; auto|contradiction Hn; reflexivity].
+    pose proof (sixfrag_parse_total (ar_payload a)) as Hp.
+    destruct (sixfrag_accessors_safe _ En) as (_ & _ & _ & _ & Hpl).
+    destruct (sixfrag_parse (ar_payload a)) as [h|e|] eqn:Eh; [|cbn; auto|contradiction Hp; reflexivity].
+    destruct (sixfrag_payload (ar_payload a)) as [pl|e|] eqn:Epl; [|cbn; auto|contradiction Hpl; reflexivity].
+    cbn [obind ev_step ev_time]. split; [|split; [|reflexivity]].
+    + match goal with |- match ?x with _ => _ end = _ =>
+        pose proof (lpf_process_fragment_noerr (ar_time a) timeout (lpl_ll_bytes (ar_lls a)) (lpl_ll_bytes (ar_lld a))
+                      (mkRxFrag h pl (fun buflen => lp_sixlowpan_to_ipv6 ctx (ar_lls a) (ar_lld a) pl (Some (lpf_hdr_size h)) buflen))
+                      (lpf_remove_expired (ar_time a) ss)) as Hne;
+        destruct x as [r|e|] eqn:Ex end; [reflexivity | exfalso; exact (Hne e eq_refl) | reflexivity].
+    + cbn [ev_tame]. unfold frag_tame. cbn [rf_hdr rf_first_dec].
+      destruct (sixfrag_payload_inv _ _ Epl) as (lo & Hfrom).
+      pose proof (wb_from_bytes _ _ _ Hb Hfrom) as Hbpl.
+      destruct (wb_from_len _ _ _ Hfrom) as (Hlo & Hlpl). pose proof (blen_nonneg (ar_payload a)).
+      destruct h as [size tag|size tag off].
+      * intros Hsz n Hn'. cbn [lpf_hdr_size].
+        apply lp_sixlowpan_to_ipv6_total; try assumption; [lia|].
+        intros t Ht. injection Ht as <-. exact Hsz.
+      * exact (proj1 (sixfrag_parse_next_off _ _ _ _ Hb Eh)).
+  - assert (H40 : lp_IPV6_HDR <= lp_MAX_DECOMPRESSED_LEN) by (unfold lp_IPV6_HDR, lp_MAX_DECOMPRESSED_LEN; zfold; lia).
+    destruct (lp_sixlowpan_to_ipv6_total ctx (ar_lls a) (ar_lld a) (ar_payload a) None lp_MAX_DECOMPRESSED_LEN
+                Hb Hl Hls Hld Hctx H40 ltac:(intros t Ht; discriminate Ht)) as (Hnp & _).
+    destruct (lp_sixlowpan_to_ipv6 ctx (ar_lls a) (ar_lld a) (ar_payload a) None lp_MAX_DECOMPRESSED_LEN) as [x|e|];
+      [cbn; auto | cbn; auto | contradiction Hnp; reflexivity].
+Qed.
+
+Theorem lpl_run_is_event_run ctx timeout : lp_ctx_wf ctx -> forall arr ss, Forall arrival_wf arr ->
+  lpl_run ctx timeout arr ss = ev_run timeout (map (lpl_ev_of ctx) arr) ss.
+Proof.
+  intros Hctx. induction arr as [|a arr IH]; intros ss Hwf; [reflexivity|].
+  inversion Hwf as [|? ? Ha Hrest]; subst. cbn [lpl_run map ev_run].
+  rewrite (proj1 (lpl_poll_is_event_step ctx timeout a ss Hctx Ha)).
+  destruct (ev_step timeout (lpl_ev_of ctx a) ss) as [(ss1, d)|e|]; cbn [obind]; [|reflexivity|reflexivity].
+  rewrite IH by exact Hrest. reflexivity.
+Qed.
+
+(* ---------- the octets of a fragment frame parse back to the record ---------- *)
+
+Lemma sixlowpan_dispatch_cons x r : sixlowpan_dispatch (x :: r) =
+  if (Z.shiftr x 3 =? sixfrag_FIRST) || (Z.shiftr x 3 =? sixfrag_NEXT) then Ok 0
+  else if Z.shiftr x 5 =? wsix_DISPATCH_IPHC_HEADER then Ok 1 else Err 0.
+Proof.
+  unfold sixlowpan_dispatch. pose proof (blen_nonneg r). rewrite blen_cons.
+  replace (1 + blen r =? 0) with false by (symmetry; apply Z.eqb_neq; lia).
+  rewrite wb_get_u8_ok by (rewrite blen_cons; lia). reflexivity.
+Qed.
+
+Lemma sixlowpan_dispatch_frag h pl : sixfrag_wf h = true -> sixlowpan_dispatch (sixfrag_bytes h ++ pl) = Ok 0.
+Proof.
+  intros Hwf. apply sixfrag_wf_inv in Hwf.
+  destruct h as [size tag|size tag off]; unfold sixfrag_bytes; cbn [app]; rewrite sixlowpan_dispatch_cons.
+  - destruct Hwf as (Hs & _). rewrite sf_shiftr_first by lia. unfold sixfrag_FIRST. zfold. reflexivity.
+  - destruct Hwf as (Hs & _). rewrite sf_shiftr_next by lia. unfold sixfrag_FIRST, sixfrag_NEXT. zfold. reflexivity.
+Qed.
+
+Theorem lpl_ev_of_fragment_octets ctx t lls lld h pl : sixfrag_wf h = true ->
+  lpl_ev_of ctx (mkArrival t lls lld (sixfrag_bytes h ++ pl)) =
+  EvFrag t (lpl_ll_bytes lls) (lpl_ll_bytes lld)
+    (mkRxFrag h pl (fun buflen => lp_sixlowpan_to_ipv6 ctx lls lld pl (Some (lpf_hdr_size h)) buflen)).
+Proof.
+  intros Hwf. unfold lpl_ev_of. cbn [ar_time ar_lls ar_lld ar_payload].
+  rewrite (sixlowpan_dispatch_frag h pl Hwf). cbn [Z.eqb].
+  destruct (sixfrag_parse_bytes h pl Hwf) as (-> & -> & ->). reflexivity.
+Qed.
+
+(* ================================================================================
+   11. composition, egress side: the octets written behind the MAC header
+   ================================================================================ *)
+
+Lemma sixfrag_buffer_len_pos h : 0 <= sixfrag_buffer_len h.
+Proof. destruct h; cbn; zfold; lia. Qed.
+
+(* for ANY previous content of the transmit buffer: the fragment header octets followed by the
+   fragment payload *)
+Theorem lpl_frame_octets_spec f h txbuf : fr_hdr f = Some h -> sixfrag_wf h = true ->
+  bytes_ok txbuf = true -> blen txbuf = lpl_txbuf_len f ->
+  lpl_frame_octets f txbuf = Ok (sixfrag_bytes h ++ fr_payload f).
+Proof.
+  intros Hh Hwf Hb Hl. unfold lpl_txbuf_len in Hl. rewrite Hh in Hl. unfold lpl_frame_octets. rewrite Hh.
+  pose proof (sixfrag_buffer_len_pos h) as Hn. pose proof (blen_nonneg (fr_payload f)) as Hp.
+  pose proof (sixfrag_bytes_len h) as Hbl.
+  assert (Hrest : blen (skipn (Z.to_nat (sixfrag_buffer_len h)) txbuf) = blen (fr_payload f)) by (rewrite blen_skipn by lia; lia).
+  assert (Hset : wb_set_slice (skipn (Z.to_nat (sixfrag_buffer_len h)) txbuf) 0 (blen (fr_payload f)) (fr_payload f) = Ok (fr_payload f)).
+  { unfold wb_set_slice. rewrite Hrest.
+    replace ((0 <=? 0) && (0 <=? blen (fr_payload f)) && (blen (fr_payload f) <=? blen (fr_payload f)) &&
+             (blen (fr_payload f) =? blen (fr_payload f) - 0)) with true by (symmetry; zbool; reflexivity).
+    change (Z.to_nat 0) with 0%nat. cbn [firstn app]. rewrite skipn_all2 by (unfold blen in *; lia).
+    rewrite app_nil_r. reflexivity. }
+  destruct h as [size tag|size tag off].
+  - rewrite sixfrag_emit_spec by (try assumption; lia). cbn [obind].
+    rewrite wb_upto_app_l by lia. rewrite wb_upto_all' by (symmetry; exact Hbl). cbn [obind].
+    rewrite (wb_from_tail (sixfrag_bytes (SfFirst size tag))) by (symmetry; exact Hbl). cbn [obind].
+    rewrite Hset. reflexivity.
+  - rewrite wb_upto_ok by lia. cbn [obind].
+    rewrite sixfrag_emit_exact; [|assumption | apply bytes_ok_firstn; assumption | apply blen_firstn; lia].
+    cbn [obind]. rewrite wb_from_ok by lia. cbn [obind]. rewrite Hset. reflexivity.
+Qed.
